@@ -186,6 +186,8 @@ func valsOf(s *Shape, thorough bool, depth int) []any {
 		out := []any{[]any{}, []any{ev[0]}}
 		if len(ev) >= 3 {
 			out = append(out, []any{ev[0], ev[1], ev[2]})
+			// other first elements (a destination decoded into twice keeps or loses what element 0 held)
+			out = append(out, []any{ev[2], ev[1], ev[0]}, []any{ev[len(ev)-1]})
 		}
 		if depth == 0 && len(ev) > 3 {
 			out = append(out, append([]any{}, ev...))
@@ -403,6 +405,11 @@ var contentCatalogue = [][]byte{
 	[]byte("\x00a\x00b"), []byte("\x00a\x00\x00"), []byte("\xd8\x00"),
 }
 
+var (
+	wrap70 = []byte{0x82, 0x80, 0x80, 0x80, 0x80, 0x80, 0x80, 0x80, 0x80, 0x80} // followed by one more octet: 2*2^70 + v
+	wrap63 = []byte{0x81, 0x80, 0x80, 0x80, 0x80, 0x80, 0x80, 0x80, 0x80}       // followed by one more octet: 2^63 + v
+)
+
 type mut struct {
 	b    []byte
 	what string
@@ -473,6 +480,12 @@ func singleMutations(b []byte, thorough bool, emit func(m []byte, what string)) 
 				for p := 0; p <= lim; p++ {
 					one(elem(n.id, cat(n.content[:p], []byte{0x80}, n.content[p:])), "insert-80")
 				}
+				// base-128 numbers of 10 and 11 octets: 2*2^70 + v and 2^63 + v wrap a 64-bit accumulator back
+				// into range; minimal encodings (the leading octet is not 0x80), far too large to accept
+				for p := 0; p < lim; p++ {
+					one(elem(n.id, cat(n.content[:p], wrap70, n.content[p:])), "base128-wrap-2^71")
+					one(elem(n.id, cat(n.content[:p], wrap63, n.content[p:])), "base128-wrap-2^63")
+				}
 			}
 			// length forms
 			L := len(body)
@@ -481,6 +494,10 @@ func singleMutations(b []byte, thorough bool, emit func(m []byte, what string)) 
 			one(cat(n.id, []byte{0x84, 0, 0, byte(L >> 8), byte(L)}, body), "len-84")
 			one(cat(n.id, []byte{0x80}, body, []byte{0, 0}), "len-indefinite")
 			one(cat(padTag(n.id, n.h), encLen(nil, L), body), "tag-padded")
+			if n.h.tag < 128 {
+				one(cat([]byte{n.id[0] | 0x1f}, wrap70, []byte{byte(n.h.tag)}, encLen(nil, L), body), "tag-base128-wrap-2^71")
+				one(cat([]byte{n.id[0] | 0x1f}, wrap63, []byte{byte(n.h.tag)}, encLen(nil, L), body), "tag-base128-wrap-2^63")
+			}
 			// structure
 			one(nil, "delete-node")
 			e := elem(n.id, body)
